@@ -139,6 +139,7 @@ class TreeOpts:
         flows=True,
         flow_odds=4,
         transform_odds=8,
+        count_bias=2,
     ):
         self.max_depth = max_depth
         self.kinds = tuple(kinds)
@@ -152,12 +153,15 @@ class TreeOpts:
         self.flows = flows  # non-Count aggregators in underflow/overflow/nanflow slots
         self.flow_odds = flow_odds  # ... in one of flow_odds slots
         self.transform_odds = transform_odds  # one of transform_odds Counts has a non-identity transform
+        self.count_bias = count_bias  # tenths of the leaves forced to be Count (by far the most common leaf in real trees)
 
 
 @st.composite
 def leaf_specs(draw, o, kinds=None):
     ks = [k for k in (kinds or o.kinds) if k in LEAF_KINDS] or ["Count"]
     k = draw(st.sampled_from(ks))
+    if "Count" in ks and o.count_bias and draw(st.integers(0, 9)) < o.count_bias:
+        k = "Count"
     if k == "Count":
         if o.count_transforms and draw(st.integers(0, o.transform_odds - 1)) == 0:
             return {"k": "Count", "transform": draw(st.sampled_from(("sq", "half")))}
